@@ -380,6 +380,16 @@ class Recorder:
                 # _mode_stopped_callback, so the CbStopped step ends here and the Start is a step of its own
                 if not top["done"]:
                     self.finish(top, None)
+            elif kind == "Start" and top is None and len(self.stack) >= 2 and self.stack[-2] is not None and \
+                    self.stack[-2]["kind"] == "Start":
+                # a stop callback run by the clean-up inside start().  Restarting the same mode must be refused (it
+                # is already starting; a refused start is no step); starting another mode is a step of its own that
+                # commutes with the enclosing one and is recorded right after it
+                mp = kwargs.get("mode_priority", args[0] if args else None)
+                tok = {"kind": "Start", "mode": mode, "was_starting": mode._starting, "inflush": self.stack[-2],
+                       "arg": mp if isinstance(mp, int) else mode.config["mode"]["priority"], "done": True}
+                self.stack.append(tok)
+                return tok
             else:
                 self.nested = True      # anything else never nests in MPF; if it does the tie is void
                 self.stack.append(None)
@@ -408,6 +418,15 @@ class Recorder:
         self.stack.pop()
         if tok is None:
             return
+        if tok.get("inflush"):
+            m = tok["mode"]
+            accepted = bool(m._starting and not tok["was_starting"])
+            if m is tok["inflush"]["mode"]:
+                if accepted:
+                    self.nested = True          # a start inside the start of the same mode
+            else:
+                tok["inflush"].setdefault("deferred", []).append((m, tok["arg"], accepted))
+            return
         if tok["done"]:
             self.env_diff(self.snapshot())      # whatever ran after the nested start
             self.check_sorted(len(self.steps))
@@ -435,8 +454,15 @@ class Recorder:
         else:
             status = 1
         kept = before & after
-        self.steps.append([kind, i, arg, status, [a * 8 + b for a, b in self.posted], self.active_ids(),
+        self.steps.append([kind, i, arg, status, [a * 8 + b for a, b in self.posted if a == i], self.active_ids(),
                            self.phase(mode), self.owned(kept, i)])
+        rest = [e for e in self.posted if e[0] != i]
+        for m2, arg2, acc2 in tok.get("deferred", []):
+            j = self.ids[m2.name]
+            self.steps.append(["Start", j, arg2, 1 if acc2 else 0, [a * 8 + b for a, b in rest if a == j],
+                               self.active_ids(), self.phase(m2), self.owned(kept, j)])
+            rest = [e for e in rest if e[0] != j]
+        self.outside_posts += rest
         self.posted = []
         self.last = kept
         self.env_diff(after)
@@ -547,6 +573,7 @@ def run_life(case):
         trace = out["handler_trace"]
         requests = []
         adds = []
+        live = []
         out["stop_event_ignored"] = []
 
         def settle():
@@ -565,6 +592,7 @@ def run_life(case):
             machine.events.add_handler(ev, th, priority=prio)
         for r in case["reactions"]:
             r = dict(r, left=r["budget"])
+            live.append(r)
 
             def rh(_r=r, **kwargs):
                 if _r["left"] <= 0:
@@ -686,6 +714,15 @@ def run_life(case):
                     moved = True
                 settle()
             return moved
+        # modes that are up in the base configuration and got extra registrations from the rig's handlers go
+        # through one more stop/start cycle (their clean-up has to remove those too)
+        for r in live:
+            if r["action"].startswith("add_"):
+                r["left"] = 0           # no further rig registrations while winding down
+        for n, bp in zip(names, out["base_phases"]):
+            if bp == 2 and any(a[2] == n for a in adds) and machine.modes[n]._active:
+                machine.modes[n].stop()
+                settle()
         restore()
         for _ in range(4):
             while held:
